@@ -402,6 +402,34 @@ for op in ("CONNECT", "SERVER", "ACCEPT"):
     ob("core.life_%s" % op.lower(), "core/life.c", ["-DOP_LIFE_" + op], ["C08", "C05", "C04", "C11"], unwind=14,
        desc="xcm_%s_a then xcm_close|xcm_cleanup over a typestate transport mock: epoll_create1 failure, refused creation-time attribute, transport failure, blocking finish refused or interrupted by a signal, blocking accept retried after EAGAIN: every socket object destroyed once, transport closed at most once and never after its own failure, xpoll and attribute trees released; non-blocking sockets never wait" % op.lower())
 
+_btls_getters = extract_attrs("libxcm/tp/tls/xcm_tp_btls.c") + [(g, None, "xcm_attr_type_str") for g in ("get_san_dns_attr", "get_san_email_attr", "get_san_dir_cn_attr")]
+for (g, sfn, t) in _btls_getters:
+    ob("btls.getter." + g, "btls/getters.c", ["-DGETTER=" + g, "-DGSIZE=%d" % GSIZE.get(t, 0)] + (["-DIS_STR"] if t == "xcm_attr_type_str" else []) + (["-DCTX_INDEX"] if g.startswith("get_san_") else []),
+       ["C10", "C08"], unwind=20, unwindset=["memset.0:1400", "ut_calloc.0:18", "ut_realloc.0:34"], link=BTCP_LINK,
+       desc="real BTLS getter %s (%s): any socket kind and connection state (SSL object absent before connect), credential items designated by file or by value, peer certificate absent/present with names, CN, SAN entries and key id of any length <= the bound or missing, every capacity: never writes past capacity, length exact, EOVERFLOW/ENOENT, certificate reference released" % (g, t))
+
+_ITEM = {"cert": 0, "key": 1, "tc": 2, "crl": 3}
+_FLAG = {"set_auth_attr": 0, "set_check_crl_attr": 1, "set_check_time_attr": 2, "set_verify_peer_name_attr": 3, "set_client_attr": 4}
+for (g, sfn, t) in extract_attrs("libxcm/tp/tls/xcm_tp_btls.c"):
+    if sfn is None:
+        continue
+    kind = {"xcm_attr_type_bool": 0, "xcm_attr_type_str": 1, "xcm_attr_type_bin": 2}[t]
+    item = -1
+    for k, i in _ITEM.items():
+        if sfn in ("set_%s_file_attr" % k, "set_%s_attr" % k):
+            item = i
+    names = sfn == "set_peer_names_attr"
+    variants = [("", [])]
+    if names:
+        # slist_split + validation over a symbolic string is out of reach (82 M clauses at 4 characters): one concrete value per obligation,
+        # the socket state and the previously configured names stay symbolic
+        variants = [("." + nm, ["-DIS_NAMES", "-DVMAX=5", "-DVAL=\"%s\"" % v] + (["-DVAL_BAD"] if bad else [])) for nm, v, bad in
+                    (("empty", "", False), ("one", "a", False), ("two", "a:b", False), ("bad", "!", True), ("good_bad", "a:!", True), ("empty_name", "a::b", True))]
+    for vn, vfl in variants:
+        ob("btls.setter." + sfn + vn, "btls/setters.c", ["-DSETTER=" + sfn, "-DGETTER=" + g, "-DKIND=%d" % kind, "-DITEM_IDX=%d" % item, "-DFLAG_IDX=%d" % _FLAG.get(sfn, -1), "-DIS_NAMES_B=%s" % ("true" if names else "false")] + vfl,
+           ["C10", "C11"], unwind=(12 if names else 20), unwindset=["memset.0:1400", "ut_calloc.0:18", "ut_realloc.0:34"], link=BTCP_LINK,
+           desc="real BTLS setter %s from any socket kind/state with %s: refused => EACCES/EINVAL and nothing changed; accepted => reported by %s, other attributes untouched" % (sfn, ("the value " + repr(vfl[2][6:-1])) if names else "any value of its type (7 characters over {NUL,a,b,:,!})", g))
+
 BLIFE = {"CONNECT": (["C08", "C02", "C03", "C09", "C05", "C06", "C18"], "btls_init, btls_connect with policy/address/context/SSL_new/BTCP-connect/hostname failures and any outcome of the first handshake step, then close|cleanup"),
          "ACCEPT": (["C08", "C02", "C03", "C09", "C05", "C06", "C18"], "btls_accept from a serving socket (inherited policy) with BTCP-accept/policy/context/SSL_new/hostname failures and any first handshake outcome, then close|cleanup"),
          "SERVER": (["C08", "C18"], "btls_server with address/policy/context/bind failures, then close|cleanup")}
